@@ -145,3 +145,23 @@ pub enum TlsConfigError {
         source: rustls::Error,
     },
 }
+
+#[cfg(feature = "verif-hooks")]
+pub(crate) use self::verifier::verif_ed25519_verify;
+
+#[cfg(feature = "verif-hooks")]
+impl TlsConfig {
+    /// Verification hook: the server certificate verifier wired into client configs.
+    pub(crate) fn verif_server_verifier(
+        &self,
+    ) -> Arc<dyn rustls::client::danger::ServerCertVerifier> {
+        self.server_verifier.clone()
+    }
+
+    /// Verification hook: the client certificate verifier wired into server configs.
+    pub(crate) fn verif_client_verifier(
+        &self,
+    ) -> Arc<dyn rustls::server::danger::ClientCertVerifier> {
+        self.client_verifier.clone()
+    }
+}
